@@ -79,6 +79,10 @@ def gen_history(rnd, length):
                 if rnd.random() < 0.04:
                     vs = []
                     scalar = False
+                if ty == "int" and rnd.random() < 0.15:           # an integer that no int64 can hold
+                    vs = list(vs)
+                    vs.insert(rnd.randrange(len(vs) + 1), ["int", rnd.choice([2 ** 63, -2 ** 63 - 1, 2 ** 70])])
+                    scalar = False
                 ops.append(["create", name, vs, scalar])
                 types.setdefault(name, ty)
         elif r < 0.55 and types:
@@ -108,6 +112,8 @@ def gen_history(rnd, length):
         elif r < 0.75:
             ty = rnd.choice(TYS)
             vs = gen_vals(rnd, ty, rnd.randint(1, 3))
+            if ty == "int" and rnd.random() < 0.1:
+                vs = list(vs) + [["int", rnd.choice([2 ** 63, 2 ** 70])]]
             ops.append(["dset", name, vs, len(vs) == 1 and rnd.random() < 0.5])
             types.setdefault(name, ty)
         elif r < 0.82:
@@ -192,7 +198,7 @@ def run(ctx):
             res, rest = ob[:i1], ob[i1 + 1:]
             i2 = rest.index(-7)
             state = rest[:i2]
-            if res[0] == 2 and prev is not None and state != prev and res[1] in (2, 3, 5, 1):
+            if res[0] == 2 and prev is not None and state != prev and res[1] in (2, 3, 5, 1, 8):
                 failures.append(("a refused call changed the stored values", {"history": ops[:ops.index(o) + 1]}, {"error_class": res[1]}))
             if o[0] in ("set", "create", "dset") and res[0] == 0 and o[0] != "dset" and (o[0] != "set" or o[3] in ("list", "scalar")):
                 want = stored_encoding(o[2]) if not (o[0] == "set" and o[3] == "none") else [0]
